@@ -130,18 +130,18 @@ prop("C04", [st.r_hashid, st.r_hashfn, st.r_add_pair, st.r_remove_guard, st.r_lo
      ["R-ADD-PAIR", "R-REMOVE-GUARD", "R-LOOKUP", "R-REJ-EMPTY", "R-HASHID"],
      ["the representation invariant over arbitrary edit histories (inductive argument over three hash maps is out of reach)", "listing/count agreement over histories"])
 
-prop("C05", [rd.r_cols_reader, rd.r_cols_writer, rd.r_len0_err, rd.r_dir_twins, rt.r_finalise_async],
+prop("C05", [rd.r_cols_reader, rd.r_cols_writer, rd.r_len0_err, rd.r_dir_twins, rt.r_finalise_async, rt.r_factory],
      "Decoder and encoder (sync and async twins) are compared with the spec's column table: count first, then one pass per column in the order id, run length, length, "
      "offset with integer types u64/u32/u32/u64, all through one codec handle; ids are delta coded from 0; the offset rule's condition and both arms are affine-exact in "
      "both directions; zero lengths are refused before being stored/emitted.",
-     ["R-COLS", "R-DELTA", "R-OFFRULE", "R-LEN0"],
+     ["R-COLS", "R-DELTA", "R-OFFRULE", "R-LEN0", "R-FACTORY (the requested compression selects the same codec family in all four factories)"],
      [RUNTIME, "codec round trips (library behaviour)"])
 
-prop("C06", [rs.r_budget, rs.r_leafptr, rs.r_reseek, rw.r_layout_w, rw.r_section_content, rd.r_cols_writer, rd.r_cols_reader, rr.r_walk, tt.r_walk_complete, rt.r_finalise_async],
+prop("C06", [rs.r_budget, rs.r_leafptr, rs.r_reseek, rw.r_layout_w, rw.r_section_content, rd.r_cols_writer, rd.r_cols_reader, rr.r_walk, tt.r_walk_complete, rt.r_finalise_async, rt.r_factory],
      "The root writers are analysed with the stream-position model: every Ok exit is dominated by a comparison of the *measured* root length against exactly 16 257 "
      "(spill: at most), the fitting case returns an empty leaf section, leaf pointers carry chunk[0].tile_id / cursor position before the leaf write / bytes written / "
      "run_length 0, each retry re-seeks to the remembered start and grows the leaf size, and the archive writer places the returned leaf bytes after the metadata.",
-     ["R-BUDGET", "R-LEAFPTR", "R-RESEEK", "R-LAYOUT-W (leaf section)"],
+     ["R-BUDGET", "R-LEAFPTR", "R-RESEEK", "R-LAYOUT-W (leaf section)", "R-FACTORY (root and leaves are written with the codec the requested compression names, sync and async)"],
      [RUNTIME, "that resolving root+leaves reproduces the entries for every list"])
 
 prop("C07", [tt.r_zxy_guard, tt.r_findz, tt.r_hilbert_call],
@@ -218,12 +218,12 @@ prop("C17", [rw.r_commit_order, rh.r_hdr_io, rh.r_hdr_reject],
      ["R-SEEK-FIRST", "R-HDR-LAST", "R-HDR-IO", "R-HDR-REJECT"],
      ["what a pre-filled stream contained", "atomicity below write_all"])
 
-prop("C18", [rw.r_layout_w, rw.r_abs, rs.r_reseek, rs.r_budget, rw.r_commit_order],
+prop("C18", [rw.r_layout_w, rw.r_abs, rs.r_reseek, rs.r_budget, rw.r_commit_order, rt.r_finalise_async],
      "Affine stream-position analysis with P the symbolic position at entry: all eight offset/length header fields are P-free and equal the measured sections, every "
      "SeekFrom::Start target has P-coefficient 1, the header lands at P, no seek goes below P, the stream is left at the archive end; the directory spill re-seeks to "
      "the remembered absolute root start.",
-     ["R-REL", "R-LAYOUT-W", "R-ABS", "R-NO-WRITE-BEFORE-P", "R-RESEEK"],
-     ["that reading from P yields the archive (run-time)"])
+     ["R-REL", "R-LAYOUT-W", "R-ABS", "R-NO-WRITE-BEFORE-P", "R-RESEEK", "R-FINALISE (async encoders are closed after their last write: an unterminated section makes the bytes from P unreadable)"],
+     ["that reading from P yields the archive (run-time; only the finalisation of every compressed section is decided)"])
 
 prop("C19", [st.r_rej_empty, rd.r_len0_err, rd.r_cols_reader, rd.r_cols_writer, rr.r_rej_meta, rt.r_factory, st.r_add_offset, rd.r_codec_always],
      "Each documented rejection is a guard that dominates the effect it protects: the emptiness test precedes every store mutation and its true branch is an error "
